@@ -101,6 +101,13 @@ Step(e) ==
                ELSE Report("wholetape", [blk |-> ob.blk, stage |-> ob.stage, decoded |-> ob.decoded, blocks |-> Len(tape)])
             /\ UNCHANGED <<tape, ob, armed, junk, cursor>>
       [] e.ev = "ldbytes" -> LdEvent(e) /\ UNCHANGED <<tape, ob, armed, junk, autoStopped>>
+      \* the fast-load shortcut serves the same request in the same emulated time wherever the data lies (it is not Z80 code:
+      \* the bytes it moves or compares do not travel over the contended bus)
+      [] e.ev = "trapdur" ->
+            /\ IF e.contended = e.uncontended THEN bad' = bad
+               ELSE Report("ldbytes", [why |-> "the fast-load shortcut takes a different time for data in contended RAM", t |-> e.t,
+                                       load |-> e.load, contended |-> e.contended, uncontended |-> e.uncontended])
+            /\ UNCHANGED <<tape, ob, armed, junk, autoStopped, cursor>>
 
 NextSlack(e) == IF e.ev = "tape" THEN (IF "slack" \in DOMAIN e THEN e.slack ELSE 0) ELSE slack
 TraceNext == l <= Len(Rec) /\ Step(Rec[l]) /\ slack' = NextSlack(Rec[l]) /\ l' = l + 1
